@@ -9,7 +9,8 @@ import time
 
 import z3
 
-Z3_TIMEOUT_MS = int(os.environ.get('PYVC_Z3_TIMEOUT_MS', '10000'))
+Z3_QUICK_MS = int(os.environ.get('PYVC_Z3_QUICK_MS', '2000'))
+Z3_TIMEOUT_MS = int(os.environ.get('PYVC_Z3_TIMEOUT_MS', '20000'))
 CVC5_TIMEOUT_S = int(os.environ.get('PYVC_CVC5_TIMEOUT_S', '10'))
 Z3NEW_TIMEOUT_S = int(os.environ.get('PYVC_Z3NEW_TIMEOUT_S', '30'))
 NPROC = int(os.environ.get('PYVC_NPROC', '14'))
@@ -47,10 +48,10 @@ def _model_to_dict(m):
     return out
 
 
-def _run_z3_api(smt, want_model):
+def _run_z3_api(smt, want_model, timeout_ms=None):
     ctx = z3.Context()
     s = z3.Solver(ctx=ctx)
-    s.set('timeout', Z3_TIMEOUT_MS)
+    s.set('timeout', timeout_ms or Z3_TIMEOUT_MS)
     s.from_string(smt)
     t0 = time.time()
     r = s.check()
@@ -120,7 +121,7 @@ def solve_one(job):
     log = []
     total = 0.0
     try:
-        v, m, dt = _run_z3_api(smt, want_model)
+        v, m, dt = _run_z3_api(smt, want_model, Z3_QUICK_MS)
     except Exception as e:
         v, m, dt = 'unknown', None, 0.0
         log.append('z3 api error: %r' % (e,))
@@ -138,6 +139,15 @@ def solve_one(job):
         log.append('cvc5:%s:%.2fs' % (v, dt))
         if v != 'unknown':
             return idx, v, m, 'cvc5', total, log
+        try:
+            v, m, dt = _run_z3_api(smt, want_model, Z3_TIMEOUT_MS)
+        except Exception as e:
+            v, m, dt = 'unknown', None, 0.0
+            log.append('z3 api error: %r' % (e,))
+        total += dt
+        log.append('z3-long:%s:%.2fs' % (v, dt))
+        if v != 'unknown':
+            return idx, v, m, 'z3', total, log
         try:
             v, m, dt = _z3new(smt, want_model)
         except Exception as e:
